@@ -6,6 +6,8 @@ SUF="${SUF:-}"          # e.g. SUF=b for the second round (worktrees /tmp/w2_<PI
 WT=${WT:-/tmp/wt_$P}
 [ "$SUF" = b ] && WT=/tmp/w2_$P
 [ "$SUF" = c ] && WT=/tmp/w3_$P
+[ "$SUF" = d ] && WT=/tmp/w4_$P
+[ "$SUF" = e ] && WT=/tmp/w5_$P
 D=/verif/seeded/$P$SUF
 [ -f "$WT/seed_patch.diff" ] || { echo "no patch in $WT"; exit 2; }
 mkdir -p "$D"
